@@ -68,6 +68,10 @@ var (
 
 var ErrInjected = errors.New("injected filesystem fault")
 
+// Yield, when set (controlled build), is called before every logged operation so that
+// filesystem calls are scheduling points.
+var Yield func(kind string)
+
 // Record starts recording operations on paths under root.
 func Record(root string) *Recorder {
 	r := &Recorder{root: root, failKind: map[string]int{}}
@@ -119,6 +123,9 @@ func recorderFor(path string) *Recorder {
 
 // pre decides whether a mutating call fails; it must be followed by rec.
 func pre(kind, path string) bool {
+	if Yield != nil {
+		Yield("os." + kind)
+	}
 	mu.Lock()
 	defer mu.Unlock()
 	r := recorderFor(path)
@@ -177,6 +184,9 @@ func Mkdir(path string, perm FileMode) error {
 }
 
 func Open(name string) (*File, error) {
+	if Yield != nil {
+		Yield("os.open")
+	}
 	f, err := stdos.Open(name)
 	if err != nil {
 		return nil, err
@@ -237,7 +247,12 @@ func Rename(a, b string) error {
 	return err
 }
 
-func ReadDir(name string) ([]DirEntry, error) { return stdos.ReadDir(name) }
+func ReadDir(name string) ([]DirEntry, error) {
+	if Yield != nil {
+		Yield("os.readdir")
+	}
+	return stdos.ReadDir(name)
+}
 func ReadFile(name string) ([]byte, error)    { return stdos.ReadFile(name) }
 func WriteFile(name string, data []byte, perm FileMode) error {
 	f, err := OpenFile(name, O_WRONLY|O_CREATE|O_TRUNC, perm)
@@ -292,3 +307,8 @@ func (f *File) Close() error {
 
 var _ io.ReadSeekCloser = (*File)(nil)
 var _ fs.FileInfo = FileInfo(nil)
+
+// Pass-throughs used by harness code that is instrumented together with the package.
+func MkdirTemp(dir, pattern string) (string, error) { return stdos.MkdirTemp(dir, pattern) }
+func Getenv(k string) string                         { return stdos.Getenv(k) }
+func TempDir() string                                { return stdos.TempDir() }
